@@ -100,6 +100,13 @@ type slInst struct {
 	curBlock []string
 	lastErr  error
 	reexec   []slReexec
+	// a flushed but not yet committed block (flush and commit are separate steps)
+	pending      bool
+	pendAccounts map[string]ethledger.IAccount
+	pendRoot     *types.Hash
+	pendModel    *slModel
+	pendBlock    []string
+	base         *slModel // model as of the last flush (what origin reads see)
 }
 
 type slReexec struct {
@@ -176,7 +183,7 @@ func (in *slInst) apply(op string) bool {
 		if len(in.snaps) > 0 {
 			return false
 		}
-		if _, live := in.comm.st[f[1]+"|"+f[2]]; live && !in.touched[f[1]+"|"+f[2]] {
+		if _, live := in.baseModel().st[f[1]+"|"+f[2]]; live && !in.touched[f[1]+"|"+f[2]] {
 			return false
 		}
 		a := slAddr[f[1]]
@@ -227,34 +234,34 @@ func (in *slInst) apply(op string) bool {
 		in.l.Finalise(true)
 		in.snaps = nil
 	case "commit":
-		in.l.Finalise(true)
-		in.snaps = nil
-		in.height++
-		accounts, root := in.l.FlushDirtyData()
-		if err := in.l.Commit(in.height, accounts, root); err != nil {
-			panic(fmt.Errorf("commit %d: %w", in.height, err))
+		if in.pending {
+			return false
 		}
-		in.roots[in.height] = root.String()
-		in.blocks[in.height] = in.curBlock
-		in.curBlock = nil
-		in.data[in.height] = in.dataDigest()
-		in.comm = in.cur.clone()
-		in.hist[in.height] = in.cur.clone()
-		in.dirty = false
-		in.touched = nil
+		in.doFlush()
+		in.doCommit()
+	case "flush":
+		if in.pending {
+			return false
+		}
+		in.doFlush()
+	case "commitp":
+		if !in.pending {
+			return false
+		}
+		in.doCommit()
 	case "reopen":
-		if in.dirty || len(in.snaps) > 0 {
+		if in.dirty || in.pending || len(in.snaps) > 0 {
 			return false
 		}
 		in.touched = nil
 		in.open()
 	case "purge":
-		if in.dirty || len(in.snaps) > 0 {
+		if in.dirty || in.pending || len(in.snaps) > 0 {
 			return false
 		}
 		ledger.VerifPurgeCache(in.l)
 	case "rollback":
-		if in.dirty || len(in.snaps) > 0 {
+		if in.dirty || in.pending || len(in.snaps) > 0 {
 			return false
 		}
 		t, _ := strconv.ParseUint(f[1], 10, 64)
@@ -275,10 +282,44 @@ func (in *slInst) apply(op string) bool {
 	default:
 		panic("unknown op " + op)
 	}
-	if f[0] != "commit" && f[0] != "reopen" && f[0] != "purge" {
+	if f[0] != "commit" && f[0] != "reopen" && f[0] != "purge" && f[0] != "flush" && f[0] != "commitp" {
 		in.curBlock = append(in.curBlock, op)
 	}
 	return true
+}
+
+func (in *slInst) baseModel() *slModel {
+	if in.base != nil {
+		return in.base
+	}
+	return in.comm
+}
+
+func (in *slInst) doFlush() {
+	in.l.Finalise(true)
+	in.snaps = nil
+	in.pendAccounts, in.pendRoot = in.l.FlushDirtyData()
+	in.pendModel = in.cur.clone()
+	in.base = in.cur.clone()
+	in.pendBlock = in.curBlock
+	in.curBlock = nil
+	in.pending = true
+	in.dirty = false
+	in.touched = nil
+}
+
+func (in *slInst) doCommit() {
+	in.height++
+	if err := in.l.Commit(in.height, in.pendAccounts, in.pendRoot); err != nil {
+		panic(fmt.Errorf("commit %d: %w", in.height, err))
+	}
+	in.roots[in.height] = in.pendRoot.String()
+	in.blocks[in.height] = in.pendBlock
+	in.data[in.height] = in.dataDigest()
+	in.comm = in.pendModel
+	in.hist[in.height] = in.pendModel.clone()
+	in.pending = false
+	in.pendAccounts, in.pendRoot, in.pendModel, in.pendBlock = nil, nil, nil, nil
 }
 
 // dataDigest hashes the store content without the journal bookkeeping keys.
@@ -303,7 +344,7 @@ func (in *slInst) key() string {
 	var sb strings.Builder
 	sb.WriteString(ledger.VerifDumpState(in.l))
 	sb.WriteString(in.store.Digest())
-	fmt.Fprintf(&sb, "|h=%d|m=%s|c=%s|snaps=", in.height, in.cur.digest(), in.comm.digest())
+	fmt.Fprintf(&sb, "|h=%d|m=%s|c=%s|p=%v|snaps=", in.height, in.cur.digest(), in.comm.digest(), in.pending)
 	for _, s := range in.snaps {
 		fmt.Fprintf(&sb, "%d:%s;", s.id, s.m.digest())
 	}
@@ -379,6 +420,8 @@ func slCompareQueries(l ethledger.StateLedger, m *slModel, accounts []string, ct
 			if ok != (len(want) != 0) || strings.Join(got, "\x00") != strings.Join(want, "\x00") || len(got) != len(want) {
 				cls := "wrong-set"
 				switch {
+				case strings.Contains(ctxName, "window"):
+					cls = "flush-commit-window"
 				case hasEmpty:
 					cls = "empty-value"
 				case len(got) > len(want):
